@@ -66,6 +66,11 @@ func genThemedLibJob(r *Rand, k int, allowLoad bool, theme string) LibJob {
 		j.OutFmt = Pick(r, []string{"yaml", "yaml", "json0", "props", "xml"})
 		fs := GenMultiFiles(r.Fork("in"), MultiOpts{MaxFiles: 1, MaxDocs: 3, Format: j.InFmt, PlainOnly: r.Chance(1, 2)})
 		j.Input = Bytes(fs[0].Bytes())
+		if theme == "pathtypes" {
+			// paths taken from the document: the same spelling with different element types
+			j.InFmt = "yaml"
+			j.Input = Bytes("id: " + DocID(r, k, 0) + "\np: " + Pick(r, []string{"[a, 1]", "[a, \"1\"]", "[\"k sub\"]", "[k, sub]", "[a, 0]", "[a, \"0\"]", "[\"1\"]", "[1]"}) + "\na: " + Pick(r, []string{"{}", "[]", "null", "{\"1\": x}", "[x, y]"}) + "\nk: {sub: 1}\n")
+		}
 		if theme == "snippet" || theme == "datetime" {
 			// scalars whose type has to be guessed again while evaluating: custom tags, CSV cells, dates
 			switch r.Intn(3) {
@@ -103,7 +108,7 @@ func genThemedLibJob(r *Rand, k int, allowLoad bool, theme string) LibJob {
 	} else if r.Chance(1, 12) {
 		// the second YAML decoder of the library (goccy): plain documents only
 		j.InFmt = "goccy"
-		j.Input = Bytes((&DocGen{R: r.Fork("goccy"), Plain: true}).Doc(DocID(r, k, 0)).YAML())
+		j.Input = Bytes(Pick(r, []string{"# head\n", ""}) + "id: " + DocID(r, k, 0) + Pick(r, []string{" # on id\n", "\n"}) + "a: " + strconv.Itoa(r.Range(0, 9)) + Pick(r, []string{" # on a\n", "\n"}) + "c:\n  x: 1" + Pick(r, []string{" # deep\n", "\n"}) + "d:\n  - 1\n  - 2\n")
 		j.Expr = Pick(r, []string{".", ".id", ".a", ".c", ".d", "keys", ".e[].k"})
 		j.DecSlot, j.EncSlot = r.Intn(2), r.Intn(2)
 		return j
